@@ -32,6 +32,18 @@ static IN_CASE: AtomicBool = AtomicBool::new(false);
 pub static CUR_IDX: AtomicU64 = AtomicU64::new(0);
 pub static PROGRESS: AtomicU64 = AtomicU64::new(0);
 
+/// Arm the step budget for the rest of the process (deep-probe children):
+/// `allocs` allocations / `bytes` bytes from now on.
+pub fn arm_budget(allocs: u64, bytes: u64) {
+    ALLOC_LIMIT.store(ALLOCS.load(Relaxed).saturating_add(allocs), Relaxed);
+    BYTES_LIMIT.store(BYTES.load(Relaxed).saturating_add(bytes), Relaxed);
+    IN_CASE.store(true, Relaxed);
+}
+
+pub fn disarm_budget() {
+    IN_CASE.store(false, Relaxed);
+}
+
 /// Allocation calls made so far by this process (monotonic).
 pub fn allocs_now() -> u64 {
     ALLOCS.load(Relaxed)
